@@ -308,7 +308,7 @@ impl St {
 
 pub fn run(a: &Args) -> ShardOut {
     let mut total = ShardOut::default();
-    let (histories, rounds) = if a.thorough { (30, 30) } else { (6, 14) };
+    let (histories, rounds) = if a.thorough { (60, 30) } else { (16, 14) };
     for h in 0..histories {
         if let Some(only) = super::only_history() {
             if only != h {
